@@ -586,7 +586,7 @@ func hsJobs() []job {
 	}
 	var jobs []job
 	if id := "hs/directed/accept/preauth-array-bomb"; want(id) {
-		jobs = append(jobs, job{name: "hs-preauth-bomb", mode: "hs", memKB: 256 << 10, wall: 10 * time.Minute, procs: 2,
+		jobs = append(jobs, job{name: "hs-preauth-bomb", mode: "hs", memKB: 1024 << 10, wall: 10 * time.Minute, procs: 2,
 			cases: []caseSpec{{ID: id, Target: "hs", Class: "preauth-array-bomb", Side: "accept", N: 1, Only: -1}}})
 	}
 	if len(cases) == 0 {
@@ -601,7 +601,7 @@ func hsJobs() []job {
 		for i := k; i < len(cases); i += nj {
 			cs = append(cs, cases[i])
 		}
-		jobs = append(jobs, job{name: fmt.Sprintf("hs-%02d", k), mode: "hs", memKB: 256 << 10, wall: 10 * time.Minute, cases: cs, procs: 2})
+		jobs = append(jobs, job{name: fmt.Sprintf("hs-%02d", k), mode: "hs", memKB: 1024 << 10, wall: 10 * time.Minute, cases: cs, procs: 2})
 	}
 	return jobs
 }
